@@ -441,6 +441,12 @@ class Interp:
         return Opaque('const', t)
 
     def lookup_const(self, flat):
+        segs0 = flat.split('::')
+        for name, txt in self.dump.const_inline.items():
+            ns = name.split('::')
+            if ns[-1] == segs0[-1] and '<impl' not in name and (len(segs0) == 1 or len(ns) == 1 or ns[-2] == segs0[-2]
+                                                                    or ns[-len(segs0):] == segs0 or segs0[-len(ns):] == ns):
+                return self.eval_const(txt)
         cs = self.dump.consts
         fn = cs.get(flat)
         if fn is None:
